@@ -1060,6 +1060,159 @@ fn h_loader(op: &str, a: &[&str]) -> Option<String> {
             let _ = dwarf.debug_info.reader();
             Some(with_oracle(format!("ok {out}"), bad))
         }
+        ("sk", [e, f, ver, via, asz, skattrs, sklow, rng, loc, nidx, raw, exp]) => {
+            use gimli::Section;
+            let e = endian(e)?;
+            let big = e == RunTimeEndian::Big;
+            let f64_ = match *f {
+                "32" => false,
+                "64" => true,
+                _ => return None,
+            };
+            let ver: u16 = ver.parse().ok()?;
+            if ver != 4 && ver != 5 {
+                return None;
+            }
+            let asz: u8 = asz.parse().ok()?;
+            let nidx: usize = nidx.parse().ok()?;
+            let raw: usize = raw.parse().ok()?;
+            let (rng, loc) = (unhex(rng)?, unhex(loc)?);
+            let skattrs: Vec<(u64, u64)> = if *skattrs == "-" {
+                vec![]
+            } else {
+                skattrs.split(',').map(|t| t.split_once(':').and_then(|(a, b)| Some((a.parse().ok()?, b.parse().ok()?)))).collect::<Option<Vec<_>>>()?
+            };
+            let sklow: Option<u64> = if *sklow == "-" { None } else { Some(sklow.parse().ok()?) };
+            let dwo_id: u64 = 0x0102_0304_0506_0708;
+            // one-DIE unit: header, abbreviation code 1, attribute values
+            let mk_unit = |unit_type: u8, lowpc: Option<u64>, attrs: &[(u64, u64)]| -> (Vec<u8>, Vec<u8>) {
+                let mut abbrev: Vec<u8> = vec![1, if unit_type == 4 { 0x4a } else { 0x11 }, 0];
+                if lowpc.is_some() {
+                    abbrev.extend_from_slice(&[0x11, 0x01]);
+                }
+                for (at, _) in attrs {
+                    uleb(*at, &mut abbrev);
+                    abbrev.push(0x17);
+                }
+                abbrev.extend_from_slice(&[0, 0, 0]);
+                let mut body = W::new(big);
+                body.u16(ver);
+                if ver == 5 {
+                    body.u8(unit_type);
+                    body.u8(asz);
+                    body.word(0, f64_);
+                    body.u64(dwo_id);
+                } else {
+                    body.word(0, f64_);
+                    body.u8(asz);
+                }
+                body.u8(1);
+                if let Some(l) = lowpc {
+                    body.uint(l, asz as usize);
+                }
+                for (_, v) in attrs {
+                    body.word(*v, f64_);
+                }
+                let mut info = W::new(big);
+                info.initial_length(body.b.len() as u64, f64_);
+                info.bytes(&body.b);
+                (info.b, abbrev)
+            };
+            let (sk_info, sk_abbrev) = mk_unit(4, sklow, &skattrs);
+            let (sp_info, sp_abbrev) = mk_unit(5, None, &[]);
+            let mut parent: gimli::Dwarf<Sl<'_>> = gimli::Dwarf::default();
+            parent.debug_info = gimli::DebugInfo::new(&sk_info, e);
+            parent.debug_abbrev = gimli::DebugAbbrev::new(&sk_abbrev, e);
+            parent.debug_addr = gimli::DebugAddr::from(EndianSlice::new(&b"ADDR"[..], e));
+            parent.ranges = gimli::RangeLists::new(gimli::DebugRanges::from(EndianSlice::new(&b"RANGES"[..], e)), gimli::DebugRngLists::from(EndianSlice::new(&b"main-rnglists-of-the-skeleton-file"[..], e)));
+            let sk_unit = match parent.units().next().and_then(|h| h.ok_or(gimli::Error::MissingUnitDie)).and_then(|h| parent.unit(h)) {
+                Ok(u) => u,
+                Err(x) => return Some(format!("err {}", rerr(&x))),
+            };
+            let cu_bytes;
+            let (pk_rng, pk_loc);
+            let dwo: gimli::Dwarf<Sl<'_>> = match *via {
+                "dwo" => {
+                    let mut d: gimli::Dwarf<Sl<'_>> = gimli::Dwarf::default();
+                    d.debug_info = gimli::DebugInfo::new(&sp_info, e);
+                    d.debug_abbrev = gimli::DebugAbbrev::new(&sp_abbrev, e);
+                    d.ranges = gimli::RangeLists::new(gimli::DebugRanges::from(EndianSlice::new(&b"own"[..], e)), gimli::DebugRngLists::from(EndianSlice::new(&rng[..], e)));
+                    d.locations = gimli::LocationLists::new(gimli::DebugLoc::from(EndianSlice::new(&[][..], e)), gimli::DebugLocLists::from(EndianSlice::new(&loc[..], e)));
+                    d.make_dwo(&parent);
+                    d
+                }
+                "dwp" => {
+                    // our contributions are not the first ones of the package sections
+                    pk_rng = [&b"earlier-unit-rng"[..], &rng[..], &b"later"[..]].concat();
+                    pk_loc = [&b"earlier-loc"[..], &loc[..], &b"later-unit"[..]].concat();
+                    let v5 = ver == 5;
+                    let ix = AbsIndex {
+                        version: if v5 { 5 } else { 2 },
+                        k: Some(1),
+                        kvs: vec![(dwo_id, 1)],
+                        cols: if v5 { vec![1, 3, 5, 8] } else { vec![1, 3] },
+                        unit_count: 1,
+                        offsets: vec![if v5 { vec![0, 0, 11, 16] } else { vec![0, 0] }],
+                        sizes: vec![if v5 { vec![sp_info.len() as u32, sp_abbrev.len() as u32, loc.len() as u32, rng.len() as u32] } else { vec![sp_info.len() as u32, sp_abbrev.len() as u32] }],
+                    };
+                    let slots = build_slots(1, &ix.kvs)?;
+                    cu_bytes = ser_index(&ix, big, &slots, 2, None, 0);
+                    let empty = EndianSlice::new(&[][..], e);
+                    let dwp = gimli::DwarfPackage::load(
+                        |id| -> Result<Sl<'_>, gimli::Error> {
+                            Ok(EndianSlice::new(
+                                match id {
+                                    gimli::SectionId::DebugCuIndex => &cu_bytes[..],
+                                    gimli::SectionId::DebugInfo => &sp_info[..],
+                                    gimli::SectionId::DebugAbbrev => &sp_abbrev[..],
+                                    gimli::SectionId::DebugRngLists => &pk_rng[..],
+                                    gimli::SectionId::DebugLocLists => &pk_loc[..],
+                                    _ => &[][..],
+                                },
+                                e,
+                            ))
+                        },
+                        empty,
+                    );
+                    let dwp = match dwp {
+                        Ok(d) => d,
+                        Err(x) => return Some(format!("err {}", rerr(&x))),
+                    };
+                    match dwp.find_cu(gimli::DwoId(dwo_id), &parent) {
+                        Ok(Some(d)) => d,
+                        Ok(None) => return Some("panic harness: unit not in package".into()),
+                        Err(x) => return Some(format!("err {}", rerr(&x))),
+                    }
+                }
+                _ => return None,
+            };
+            let mut unit = match dwo.units().next().and_then(|h| h.ok_or(gimli::Error::MissingUnitDie)).and_then(|h| dwo.unit(h)) {
+                Ok(u) => u,
+                Err(x) => return Some(format!("err {}", rerr(&x))),
+            };
+            // the documented skeleton hand-over
+            unit.copy_relocated_attributes(&sk_unit);
+            let b = format!("{}:{}:{}:{}:{}", unit.str_offsets_base.0, unit.addr_base.0, unit.loclists_base.0, unit.rnglists_base.0, unit.low_pc);
+            let rv: Vec<String> = (0..nidx).map(|i| res_s(dwo.ranges_offset(&unit, gimli::DebugRngListsIndex(i)), |o| o.0.to_string())).collect();
+            let lv: Vec<String> = (0..nidx).map(|i| res_s(dwo.locations_offset(&unit, gimli::DebugLocListsIndex(i)), |o| o.0.to_string())).collect();
+            let w = dwo.ranges_offset_from_raw(&unit, gimli::RawRangeListsOffset(raw)).0;
+            let d = format!("{},{}", hex(dwo.debug_addr.reader().slice()), hex(dwo.ranges.debug_ranges().reader().slice()));
+            let parts = [format!("B={b}"), format!("R={}", join(",", &rv)), format!("L={}", join(",", &lv)), format!("W={w}"), format!("D={d}")];
+            let out = parts.join("|");
+            let mut bad = None;
+            if *exp != "-" {
+                let ex: Vec<&str> = exp.split('|').collect();
+                if ex.len() != parts.len() {
+                    return None;
+                }
+                for (want, got) in ex.iter().zip(parts.iter()) {
+                    if &want[2..] != "*" && *want != got.as_str() && bad.is_none() {
+                        bad = Some(format!("split-unit-table-differs written={want} read={got}"));
+                    }
+                }
+            }
+            Some(with_oracle(format!("ok {out}"), bad))
+        }
         ("stroff", [e, f, h, base, index, exp]) => {
             let e = endian(e)?;
             let f = match *f {
@@ -3118,6 +3271,123 @@ fn gen_unit_bases(ctx: &Ctx, emit: &mut dyn FnMut(String)) {
     }
 }
 
+
+fn gen_skeleton_pairs(ctx: &Ctx, emit: &mut dyn FnMut(String)) {
+    let mut rng = ctx.rng(1709);
+    let reps = ctx.n(3, 40);
+    for big in [false, true] {
+        for f64_ in [false, true] {
+            for ver in [4u16, 5] {
+                for via in ["dwo", "dwp"] {
+                    // skeleton's ranges base: absent / the first contribution of the main file / a later one
+                    for skbase in 0..4u32 {
+                        for _ in 0..reps {
+                            let asz = *rng.pick(&[4u8, 8]);
+                            let ws = if f64_ { 8usize } else { 4 };
+                            let hdr = if f64_ { 20u64 } else { 12 };
+                            let n = rng.range(1, 5) as usize;
+                            // a DWARF 5 list table: header, offsets array (relative to the end of the
+                            // header), then the lists themselves
+                            let mk_table = |rng: &mut Rng| -> (Vec<u8>, Vec<u64>) {
+                                let mut lists: Vec<u8> = Vec::new();
+                                let mut offs: Vec<u64> = Vec::new();
+                                for _ in 0..n {
+                                    offs.push((n * ws + lists.len()) as u64);
+                                    lists.extend(rng.bytes_below(4));
+                                    lists.push(0);
+                                }
+                                if rng.chance(1, 4) {
+                                    offs[0] = rng.boundary_u64() & if f64_ { u64::MAX } else { 0xffff_ffff };
+                                }
+                                let mut w = W::new(big);
+                                w.initial_length((8 + n * ws + lists.len()) as u64, f64_);
+                                w.u16(5);
+                                w.u8(asz);
+                                w.u8(0);
+                                w.u32(n as u32);
+                                for o in &offs {
+                                    w.word(*o, f64_);
+                                }
+                                w.bytes(&lists);
+                                (w.b, offs)
+                            };
+                            let (rtab, roffs) = mk_table(&mut rng);
+                            let (ltab, loffs) = mk_table(&mut rng);
+                            let gnu_v4_dwp = ver == 4 && via == "dwp"; // a v2 index has no list columns
+                            let sk_rl: Option<u64> = match skbase {
+                                0 => None,
+                                1 => Some(hdr),
+                                2 => Some(hdr + 8 * rng.range(1, 40)),
+                                _ => Some(rng.boundary_u64() & if f64_ { u64::MAX } else { 0xffff_ffff }),
+                            };
+                            let sk_ab: Option<u64> = if rng.chance(2, 3) { Some(8 * rng.range(0, 9)) } else { None };
+                            let sk_low: Option<u64> = if rng.chance(2, 3) { Some(rng.boundary_u64() & ar_mask(asz)) } else { None };
+                            let mut skattrs: Vec<(u64, u64)> = Vec::new();
+                            if let Some(a) = sk_ab {
+                                skattrs.push((if ver == 5 { 0x73 } else { 0x2133 }, a));
+                            }
+                            if let Some(r) = sk_rl {
+                                skattrs.push((if ver == 5 { 0x74 } else { 0x2132 }, r));
+                            }
+                            if ver == 5 && rng.chance(1, 3) {
+                                skattrs.push((0x72, 8));
+                                skattrs.push((0x8c, hdr + 40));
+                            }
+                            let raw = rng.below(1 << 20);
+                            // expectations: a walk over what was written
+                            let v5 = ver == 5;
+                            let so = if v5 { if f64_ { 16 } else { 8 } } else { 0 };
+                            let ll = if v5 { hdr } else { 0 };
+                            let rl = if v5 { hdr } else { sk_rl.unwrap_or(0) };
+                            let exp_b = format!("B={}:{}:{}:{}:{}", so, sk_ab.unwrap_or(0), ll, rl, sk_low.unwrap_or(0));
+                            let col = |offs: &[u64]| -> String {
+                                offs.iter().map(|o| match hdr.checked_add(*o) { Some(v) => v.to_string(), None => "!UnsupportedOffset".into() }).collect::<Vec<_>>().join(",")
+                            };
+                            let (exp_r, exp_l) = if v5 { (format!("R={}", col(&roffs)), format!("L={}", col(&loffs))) } else { ("R=*".into(), "L=*".into()) };
+                            let exp_w = format!("W={}", if v5 { raw } else { raw.wrapping_add(rl) });
+                            emit(format!(
+                                "sk {} {} {} {} {} {} {} {} {} {} {} {}|{}|{}|{}|D=41444452,52414e474553",
+                                es(big),
+                                if f64_ { "64" } else { "32" },
+                                ver,
+                                via,
+                                asz,
+                                join(",", &skattrs.iter().map(|(a, v)| format!("{a}:{v}")).collect::<Vec<_>>()),
+                                sk_low.map(|x| x.to_string()).unwrap_or("-".into()),
+                                if gnu_v4_dwp { "-".to_string() } else { hex(&rtab) },
+                                if gnu_v4_dwp { "-".to_string() } else { hex(&ltab) },
+                                n,
+                                raw,
+                                exp_b,
+                                if gnu_v4_dwp { "R=*".to_string() } else { exp_r },
+                                if gnu_v4_dwp { "L=*".to_string() } else { exp_l },
+                                exp_w
+                            ));
+                            if rng.chance(1, 5) && !gnu_v4_dwp {
+                                // out-of-range indexes, truncated table: correspondence only
+                                let cut = rng.below(rtab.len() as u64 + 1) as usize;
+                                emit(format!(
+                                    "sk {} {} {} {} {} {} - {} {} {} {} -",
+                                    es(big),
+                                    if f64_ { "64" } else { "32" },
+                                    ver,
+                                    via,
+                                    asz,
+                                    join(",", &skattrs.iter().map(|(a, v)| format!("{a}:{v}")).collect::<Vec<_>>()),
+                                    hex(&rtab[..cut]),
+                                    hex(&ltab),
+                                    n + 2,
+                                    u64::MAX - rng.below(3)
+                                ));
+                            }
+                        }
+                    }
+                }
+            }
+        }
+    }
+}
+
 pub fn gen(ctx: &Ctx, emit: &mut dyn FnMut(String)) {
     gen_index(ctx, emit);
     gen_aranges(ctx, emit);
@@ -3127,6 +3397,7 @@ pub fn gen(ctx: &Ctx, emit: &mut dyn FnMut(String)) {
     gen_indexed(ctx, emit);
     gen_attr(ctx, emit);
     gen_unit_bases(ctx, emit);
+    gen_skeleton_pairs(ctx, emit);
     gen_real(ctx, emit);
     emit("load-wiring".into());
 }
